@@ -237,4 +237,48 @@ theorem committed_proof_validates (w : Term.W) (h v hash : Nat) (b : Block) (cs 
     · simp only [Bool.false_eq_true, if_false, List.map_map]
       exact hq
 
+/-- the same for any node state: a logged commit quorum for (h, v, hash) generates a proof that
+strict ValidateBlockConsensus accepts together with any block of that hash and height (used by the
+network model, `Net/BlockBody.lean`) -/
+theorem stored_quorum_validates (n : Node) (h v hash : Nat) (b : Block)
+    (hok : CommitsOK n)
+    (hq : isQuorum n.cfg ((n.store.getCommits h v hash).map (·.sender.id)) = true)
+    (hW1 : 1 ≤ LeanHelix.W n.cfg.members) (hW2 : LeanHelix.W n.cfg.members < U64)
+    (hinst : ∀ cm ∈ n.store.commits, cm.header.inst = n.cfg.inst)
+    (A2 : b.hash = hash ∧ b.height = h) :
+    ∃ p, BlockProof.generate (n.store.getCommits h v hash) true = some p ∧
+      BlockProof.validate ⟨false, some b, some p, n.cfg.inst, n.cfg.members, false⟩ = .ok := by
+  have hne : n.store.getCommits h v hash ≠ [] := by
+    intro he
+    have : isQuorum n.cfg ([] : List Nat) = true := by rw [he] at hq; simpa using hq
+    unfold isQuorum Quorum.isQuorum at this
+    simp only [decide_eq_true_eq, ge_iff_le] at this
+    rw [calcQuorumWeight_eq _ hW1 hW2, subsetWeight_eq _ _ hW2] at this
+    have hz : wt n.cfg.members (fun i => ([] : List Nat).contains i) = 0 := by
+      have : wt n.cfg.members (fun i => ([] : List Nat).contains i) = wt n.cfg.members (fun _ => false) := by
+        apply wt_congr; intro m _; simp
+      rw [this, wt_false]
+    have := three_f_lt n.cfg.members hW1
+    unfold Q at *; omega
+  cases hcons : n.store.getCommits h v hash with
+  | nil => exact absurd hcons hne
+  | cons c rest =>
+    have hc_mem : c ∈ n.store.getCommits h v hash := by rw [hcons]; exact List.mem_cons_self ..
+    obtain ⟨hc_in, hch, hcv, hchash⟩ := mem_getCommits hc_mem
+    refine ⟨⟨⟨tC, c.header.inst, c.header.height, c.header.view, c.header.hash⟩, (c :: rest).map (·.sender), false, true⟩, rfl, ?_⟩
+    rw [C02.validate_ok_iff_genuine]
+    refine ⟨rfl, b, _, rfl, rfl, rfl, (hinst c hc_in), by rw [hch]; exact A2.2.symm, by rw [hchash]; exact A2.1, ?_, ?_, ?_, rfl, rfl⟩
+    · intro s hs
+      obtain ⟨cm, hcm, rfl⟩ := List.mem_map.mp hs
+      have hcm' : cm ∈ n.store.getCommits h v hash := by rw [hcons]; exact hcm
+      have := hok.auth cm (mem_getCommits hcm').1
+      exact ⟨this.2.2.2, this.2.2.1⟩
+    · rw [List.map_map]
+      have := getCommits_ids_nodup n.store h v hash hok.keys
+      rw [hcons] at this
+      exact this
+    · simp only [Bool.false_eq_true, if_false, List.map_map]
+      rw [hcons] at hq
+      exact hq
+
 end LeanHelix.C03
